@@ -753,6 +753,134 @@ static void propFull(vh::Rng& r, vh::PropLog& log, int cases)
     }
 }
 
+// fourth round, property mode: cells in which only a SUBSET of the end-points differs from the table's — each single
+// one of the 14 quantities (nine saturation points, maximum Pc, KRWR, KRW, KRNR, KRN), pairs, a few, and none — under
+// two- and three-point horizontal scaling and no / two-point / three-point vertical scaling.  Evaluated: every one of
+// the three scaling points of each curve maps onto the table's point (the interior one under three-point scaling) and
+// carries the table's value there (resp. the scaled vertical end-point), and a curve none of whose defining quantities
+// differs from the table's is the table's curve ("scaling with the table's own end-points is the identity", per curve).
+// The expectation is computed from the inputs and the unscaled piecewise-linear law only.
+static std::map<std::string, long> g_subsetCount;
+
+static void propSubset(vh::Rng& r, vh::PropLog& log, int cases)
+{
+    auto chk = [&](bool ok, const std::string& key, const std::string& detail) { log.ok(); ++g_keyCount[key]; if (!ok) log.fail(key, detail); };
+    static const int IDX[14] = {0, 1, 2, 3, 4, 5, 6, 7, 8, 9, 11, 12, 13, 14};
+    static const char* NAME[15] = {"pc.lo", "pc.mid", "pc.hi", "krw.lo", "krw.mid", "krw.hi", "krn.lo", "krn.mid", "krn.hi", "maxPc", "-", "krwr", "maxKrw", "krnr", "maxKrn"};
+    for (int c = 0; c < cases; ++c) {
+        Table t;
+        Points u{};
+        for (int attempt = 0; attempt < 10; ++attempt) {                      // prefer tables with three distinct points per curve
+            t = makeTable(r, false);
+            u = unscaledOf(r, t);
+            if (u.v[3] < u.v[4] && u.v[4] < u.v[5] && u.v[6] < u.v[7] && u.v[7] < u.v[8] && u.v[11] > 0 && u.v[11] < u.v[12] && u.v[13] > 0 && u.v[13] < u.v[14]) break;
+        }
+        auto p = plParams(t);
+        // --- which quantities differ: none / one (cycling through all 14) / two / a few
+        std::vector<int> want;
+        const int kind = c % 4;
+        if (kind == 1) want.push_back(IDX[(c / 4) % 14]);
+        else if (kind == 2) { const int a = r.range(0, 13); int b = r.range(0, 12); if (b >= a) ++b; want = {IDX[std::min(a, b)], IDX[std::max(a, b)]}; }
+        else if (kind == 3) { for (int k = 0; k < 14; ++k) if (r.coin(1, 4)) want.push_back(IDX[k]); }
+        Points s = u;
+        std::string changed;
+        auto mark = [&](int i) { changed += (changed.empty() ? "" : "+") + std::string(NAME[i]); };
+        for (int i : want) if (i < 9) {                                       // saturation points, in increasing order of index: stay strictly between the neighbours
+            const int o = (i / 3) * 3, j = i - o;
+            const double lo = j == 0 ? std::max(0.0, s.v[o] - 0.2) : s.v[i - 1], hi = j == 2 ? s.v[o + 2] + 0.15 : s.v[i + 1];
+            if (!(hi - lo > 0.02)) continue;
+            for (int tries = 0; tries < 20; ++tries) {
+                const double x = lo + (hi - lo) * (0.05 + 0.9 * r.unit());
+                if (std::fabs(x - u.v[i]) > 0.01) { s.v[i] = x; mark(i); break; }
+            }
+        }
+        for (int i : want) {                                                  // vertical end-points: 0 < KRxR < KRx
+            if (i == 9 && u.v[9] > 0) { s.v[9] = u.v[9] * (r.coin() ? 0.3 + 0.6 * r.unit() : 1.2 + 2 * r.unit()); mark(9); }
+            if (i == 12) { s.v[12] = s.v[11] + (1.05 - s.v[11]) * (0.05 + 0.9 * r.unit()); if (std::fabs(s.v[12] - u.v[12]) > 0.01) mark(12); else s.v[12] = u.v[12]; }
+            if (i == 14) { s.v[14] = s.v[13] + (1.05 - s.v[13]) * (0.05 + 0.9 * r.unit()); if (std::fabs(s.v[14] - u.v[14]) > 0.01) mark(14); else s.v[14] = u.v[14]; }
+        }
+        for (int i : want) {
+            if (i == 11) { s.v[11] = s.v[12] * (0.05 + 0.9 * r.unit()); if (std::fabs(s.v[11] - u.v[11]) > 0.01) mark(11); else s.v[11] = u.v[11]; }
+            if (i == 13) { s.v[13] = s.v[14] * (0.05 + 0.9 * r.unit()); if (std::fabs(s.v[13] - u.v[13]) > 0.01) mark(13); else s.v[13] = u.v[13]; }
+        }
+        if (changed.empty()) changed = "none";
+        ++g_subsetCount[kind == 3 ? std::string("several") : kind == 2 ? std::string("pair") : changed];
+        // --- every scaling mode
+        static const char* VERT[3] = {"00", "10", "11"};
+        const int vwFix = r.range(0, 2), vnFix = r.range(0, 2);
+        for (int mode = 0; mode < 6; ++mode) {
+            const bool three = mode & 1;
+            const int vw = (vwFix + mode / 2) % 3, vn = (vnFix + mode / 2) % 3;
+            const bool pcs = r.coin();
+            const std::string bits = std::string("1") + (three ? "1" : "0") + VERT[vw] + VERT[vn] + (pcs ? "1" : "0") + "0";
+            Eps::Params e = epsParams(bits, t, u, s);
+            const std::string tag = "differs: " + changed + " cfg=" + bits + " ";
+            auto ordered = [&](const Points& q, int o) { return q.v[o] < q.v[o + 1] && q.v[o + 1] < q.v[o + 2]; };
+            auto weak = [&](const Points& q, int o) { return q.v[o] <= q.v[o + 1] && q.v[o + 1] <= q.v[o + 2]; };
+            auto samePts = [&](int o) { return s.v[o] == u.v[o] && s.v[o + 1] == u.v[o + 1] && s.v[o + 2] == u.v[o + 2]; };
+            // the interior point is a point of the map under three-point scaling; under two-point scaling it still is where
+            // KRWR / KRNR apply, which is the table's interior point when the three points are the table's own
+            const bool w3 = (three && ordered(s, 3) && weak(u, 3)) || (!three && samePts(3) && ordered(u, 3));
+            const bool n3 = (three && ordered(s, 6) && weak(u, 6)) || (!three && samePts(6) && ordered(u, 6));
+            const bool vwOk = vw != 2 || (u.v[11] > 0 && u.v[11] < u.v[12] && s.v[3] <= s.v[4] && s.v[4] < s.v[5]);      // domain of the three-point vertical scaling
+            const bool vnOk = vn != 2 || (u.v[13] > 0 && u.v[13] < u.v[14] && s.v[6] < s.v[7] && s.v[7] <= s.v[8]);
+            // (a) the three scaling points of each saturation map
+            for (int j = 0; j < 3; ++j) {
+                if (j == 1 && !w3) continue;
+                const double got = Eps::scaledToUnscaledSatKrw(e, s.v[3 + j]);
+                chk(close(got, u.v[3 + j], 1e-12, 1e-15), std::string("subset.map.krw.") + "lmu"[j], tag + "scaled point " + num(s.v[3 + j]) + " maps to " + num(got) + ", table point " + num(u.v[3 + j]));
+            }
+            for (int j = 0; j < 3; ++j) {
+                if (j == 1 && !n3) continue;
+                const double got = Eps::scaledToUnscaledSatKrn(e, s.v[6 + j]);
+                chk(close(got, u.v[6 + j], 1e-12, 1e-15), std::string("subset.map.krn.") + "lmu"[j], tag + "scaled point " + num(s.v[6 + j]) + " maps to " + num(got) + ", table point " + num(u.v[6 + j]));
+            }
+            for (int j = 0; j < 3; j += 2) {
+                const double got = Eps::scaledToUnscaledSatPc(e, s.v[j]);
+                chk(close(got, u.v[j], 1e-12, 1e-15), std::string("subset.map.pc.") + "lmu"[j], tag + "scaled point " + num(s.v[j]) + " maps to " + num(got) + ", table point " + num(u.v[j]));
+            }
+            // (b) the values at the scaled points: the table's value at the table's point, scaled vertically
+            if (vwOk) for (int j = 0; j < 3; ++j) {
+                if (j == 1 && !w3) continue;
+                const double tab = PL::twoPhaseSatKrw(*p, u.v[3 + j]);
+                double want_ = tab;
+                if (vw == 1) want_ = tab * (s.v[12] / u.v[12]);
+                if (vw == 2) want_ = j == 2 ? s.v[12] : j == 1 ? s.v[11] : tab * (s.v[11] / u.v[11]);
+                const double got = Eps::twoPhaseSatKrw(e, s.v[3 + j]);
+                chk(closeF(got, want_, 1e-10, 1e-13), std::string("subset.value.krw.") + "lmu"[j], tag + "krw(" + num(s.v[3 + j]) + ") = " + num(got) + ", want " + num(want_) + " (table " + num(tab) + " at " + num(u.v[3 + j]) + ")");
+            }
+            if (vnOk) for (int j = 0; j < 3; ++j) {
+                if (j == 1 && !n3) continue;
+                const double tab = PL::twoPhaseSatKrn(*p, u.v[6 + j]);
+                double want_ = tab;
+                if (vn == 1) want_ = tab * (s.v[14] / u.v[14]);
+                if (vn == 2) want_ = j == 0 ? s.v[14] : j == 1 ? s.v[13] : tab * (s.v[13] / u.v[13]);
+                const double got = Eps::twoPhaseSatKrn(e, s.v[6 + j]);
+                chk(closeF(got, want_, 1e-10, 1e-13), std::string("subset.value.krn.") + "lmu"[j], tag + "krn(" + num(s.v[6 + j]) + ") = " + num(got) + ", want " + num(want_) + " (table " + num(tab) + " at " + num(u.v[6 + j]) + ")");
+            }
+            for (int j = 0; j < 3; j += 2) {
+                const double tab = PL::twoPhaseSatPcnw(*p, u.v[j]);
+                const double want_ = pcs && u.v[9] > 0 ? tab * (s.v[9] / u.v[9]) : tab;
+                const double got = Eps::twoPhaseSatPcnw(e, s.v[j]);
+                chk(closeF(got, want_, 1e-10, 1e-7), std::string("subset.value.pc.") + "lmu"[j], tag + "pc(" + num(s.v[j]) + ") = " + num(got) + ", want " + num(want_));
+            }
+            // (c) identity, per curve: a curve is the table's curve when none of the quantities that define it under this
+            //     configuration differs from the table's (two-point scaling: the interior point defines nothing)
+            const bool krwSame = s.v[3] == u.v[3] && s.v[5] == u.v[5] && ((!three && vw != 2) || s.v[4] == u.v[4]) && (vw == 0 || s.v[12] == u.v[12]) && (vw != 2 || s.v[11] == u.v[11]);
+            const bool krnSame = s.v[6] == u.v[6] && s.v[8] == u.v[8] && ((!three && vn != 2) || s.v[7] == u.v[7]) && (vn == 0 || s.v[14] == u.v[14]) && (vn != 2 || s.v[13] == u.v[13]);
+            const bool pcSame = s.v[0] == u.v[0] && s.v[2] == u.v[2] && (!pcs || s.v[9] == u.v[9]);
+            const bool wDomain = (vw != 2 || (u.v[11] > 0 && u.v[11] < u.v[12])) && (!three || ordered(u, 3));
+            const bool nDomain = (vn != 2 || (u.v[13] > 0 && u.v[13] < u.v[14])) && (!three || ordered(u, 6));
+            for (int k = 0; k <= 40; ++k) {
+                const double sw = u.v[0] + (u.v[2] - u.v[0]) * k / 40.0;
+                if (krwSame && wDomain) chk(closeF(Eps::twoPhaseSatKrw(e, sw), PL::twoPhaseSatKrw(*p, sw), 1e-11, 1e-14), "subset.identity.krw", tag + "sw=" + num(sw) + " scaled " + num(Eps::twoPhaseSatKrw(e, sw)) + " table " + num(PL::twoPhaseSatKrw(*p, sw)));
+                if (krnSame && nDomain) chk(closeF(Eps::twoPhaseSatKrn(e, sw), PL::twoPhaseSatKrn(*p, sw), 1e-11, 1e-14), "subset.identity.krn", tag + "sw=" + num(sw) + " scaled " + num(Eps::twoPhaseSatKrn(e, sw)) + " table " + num(PL::twoPhaseSatKrn(*p, sw)));
+                if (pcSame) chk(closeF(Eps::twoPhaseSatPcnw(e, sw), PL::twoPhaseSatPcnw(*p, sw), 1e-11, 1e-9), "subset.identity.pc", tag + "sw=" + num(sw));
+            }
+        }
+    }
+}
+
 int main(int argc, char** argv)
 {
     if (argc < 5) { std::cerr << "usage: satfunc corr|prop <seed> <tier> <outdir>\n"; return 2; }
@@ -775,10 +903,14 @@ int main(int argc, char** argv)
         vh::PropLog log(out + "/prop.txt");
         propAll(r, log, thorough ? 6000 : 800);
         propFull(r, log, thorough ? 6000 : 1000);
+        { vh::Rng rs(seed ^ 0x5B5E7ull); propSubset(rs, log, thorough ? 9000 : 1400); }
         std::ofstream st(out + "/prop_stats.json");
         st << "{\"checked\": " << log.checked << ", \"failed\": " << log.failed << ", \"evaluated\": {";
         bool first = true;
         for (const auto& kv : g_keyCount) { st << (first ? "" : ", ") << "\"" << kv.first << "\": " << kv.second; first = false; }
+        st << "}, \"subset_cells\": {";
+        first = true;
+        for (const auto& kv : g_subsetCount) { st << (first ? "" : ", ") << "\"" << kv.first << "\": " << kv.second; first = false; }
         st << "}}\n";
         return 0;
     }
